@@ -19,6 +19,7 @@ from __future__ import annotations
 
 import copy
 import os
+import re
 from typing import Any
 
 from detsim import corrupt, env, gen, monitors, rng
@@ -220,10 +221,18 @@ def execute(plan: dict[str, Any]) -> dict[str, Any]:
                           and not x[0].endswith(".chart")]
             all_reported = True
             for j in v["junk"]:
-                hits = sum(1 for m in track_msgs if j["line"] in m) if j["line"].strip() else None
-                reported = (hits is None and len(track_msgs) > 0) or (hits is not None and hits >= 1)
-                if not reported:
+                rendered = "  " + j["line"]
+                # the code's own verdict on this line, from the dispatcher monitor (every kind of
+                # the section's own dispatcher was tried on it): [] = unparsable
+                verdict = mon.claims.get(rendered)
+                if verdict is None or verdict:
                     all_reported = False
+                if j["line"].strip():
+                    pat = re.compile(re.escape(rendered) + r"(?![0-9A-Za-z])")
+                    reported = any(pat.search(m) for m in track_msgs)
+                else:
+                    reported = len(track_msgs) > 0
+                if not reported:
                     if j["strict"] and fam != "song" and r["kind"] == "ok":
                         add("conservation", "strict-junk-not-reported",
                             f"variant {v['name']}: junk line {j['line']!r} inserted into [{plan['target']}] "
